@@ -93,7 +93,7 @@ func (a *extraAttribute) deserialize(b []byte) (int, error) {
 	}
 
 	n := int(binary.BigEndian.Uint16(b))
-	if len(b) < sszSize+n {
+	if n > maxExtraLen || len(b) < sszSize+n {
 		return 0, ErrCorruptedData
 	}
 
